@@ -115,6 +115,9 @@ def gen_script(rng, case, m, ncalls):
                     v = rng.choice([G.MAGIC, G.MAGIC, G.MAGIC ^ (1 << rng.randrange(64))])
                 elif vr < 0.7:
                     v = 0
+                elif vr < 0.8:
+                    # wider than w bits / negative: the documented contract is 'the value is masked to w bits'
+                    v = rng.choice([(rng.getrandbits(64) | (1 << w)), -1 - rng.getrandbits(w), (1 << w), (1 << 63) | rng.getrandbits(w)])
                 else:
                     v = rng.getrandbits(w)
                 acts.append(['ww', a, v])
